@@ -198,13 +198,18 @@ func (c *Ctx) definitelyNonNilErr(v ssa.Value, b *ssa.BasicBlock, depth int) boo
 	case *ssa.ChangeInterface:
 		return c.definitelyNonNilErr(x.X, b, depth+1)
 	case *ssa.Phi:
+		all := len(x.Edges) > 0
 		for i, e := range x.Edges {
 			pb := x.Block().Preds[i]
 			if !c.definitelyNonNilErr(e, pb, depth+1) {
-				return false
+				all = false
+				break
 			}
 		}
-		return true
+		if all {
+			return true
+		}
+		// else: a dominating nil test of the merged value may still settle it
 	case *ssa.UnOp:
 		if x.Op == token.MUL {
 			if g, ok := x.X.(*ssa.Global); ok {
@@ -216,7 +221,23 @@ func (c *Ctx) definitelyNonNilErr(v ssa.Value, b *ssa.BasicBlock, depth int) boo
 			return true
 		}
 	case *ssa.Extract:
-		// error component of a tuple: only via a dominating check
+		// error component of a tuple: a callee of the library every return of which gives a non-nil error at that
+		// position (a local closure or helper that builds the refusal), else only via a dominating check
+		if call, ok := x.Tuple.(*ssa.Call); ok {
+			if f := call.Common().StaticCallee(); f != nil && isLibFn(f) && f.Blocks != nil && x.Index < f.Signature.Results().Len() &&
+				isErrorType(f.Signature.Results().At(x.Index).Type()) {
+				all := true
+				for _, r := range returnsOf(f) {
+					if !c.definitelyNonNilErr(r.Results[x.Index], r.Block(), depth+1) {
+						all = false
+						break
+					}
+				}
+				if all && len(returnsOf(f)) > 0 {
+					return true
+				}
+			}
+		}
 	}
 	if b != nil && knownNonNil(v, b) {
 		return true
